@@ -58,7 +58,18 @@ def oracle(acc, text, case, kern_only_opts):
         second_all = list(itertools.islice(it2, M + 3))
         rest = list(itertools.islice(it1, M + 3))
         import itertools
-        nested = list(itertools.islice(((x, y) for x in doc for y in doc), M * M + 3))
+        # nested iteration with explicit step bounds (an iterator that restarts silently would make a plain nested loop run for ever WITHOUT yielding anything)
+        nested, outer_steps = [], 0
+        for x in doc:
+            outer_steps += 1
+            if outer_steps > M + 3:
+                break
+            inner_steps = 0
+            for y in doc:
+                inner_steps += 1
+                if inner_steps > M + 3:
+                    break
+                nested.append((x, y))
         again = list(itertools.islice(iter(doc), M + 3))
         exp_all = list(range(1, M + 1))
         if first != 1 or second_all != exp_all or rest != exp_all[1:] or nested != [(x, y) for x in exp_all for y in exp_all] or again != exp_all:
